@@ -1,3 +1,4 @@
+import JadeModel.Proofs.SystemGen
 import JadeModel.Props.C08
 import JadeModel.Proofs.ResultsFaultOnce
 import JadeModel.Proofs.ResultsFaultBytes
